@@ -31,8 +31,8 @@ func init() {
 			c.floor("CS", 12)
 			c.runArgMin(append(c.libPkgs()[:4:4], c.fixturePkg("a3")), "AM")
 			c.floor("AM", 10)
-			c.runAllChildren("ALLCHILD", c.libPkgs()[:4], ff)
-			c.floor("ALLCHILD", 3)
+			c.runAllChildren("ALLCHILD", append(c.libPkgs()[:4:4], c.fixturePkg("s")), ff)
+			c.floor("ALLCHILD", 0)
 			c.runAxisCompare("AXISCMP", append(c.libPkgs()[:4:4], c.fixturePkg("u")), ff)
 			c.floor("AXISCMP", 0)
 			c.runNilReceiver("NILRECV", append(c.libPkgs()[:4:4], c.fixturePkg("u")), nil)
